@@ -129,7 +129,11 @@ FACET = [("  a \t b  ", _XSD + "token"), (" x", _XSD + "token"), ("p  q", _XSD +
          ("tab\there", _XSD + "normalizedString"), ("plain", _XSD + "token"), (" kept as sent ", _XSD + "normalizedString")]
 
 
-def rdf11_statements(r, g: genmod.Gen, n: int, arity: int, noncanon_p: float = 0.15, facet_p: float = 0.0) -> list:
+# one literal in several spellings of its language tag (one RDF term, one term for rdflib's ==; a reader hands out the spelling sent)
+TAGCASE = [("chat", "fr"), ("chat", "FR"), ("chat", "Fr"), ("Chat", "fr-CA"), ("Chat", "fr-ca"), ("x", "EN"), ("x", "en"), ("x", "en-GB"), ("x", "EN-gb")]
+
+
+def rdf11_statements(r, g: genmod.Gen, n: int, arity: int, noncanon_p: float = 0.15, facet_p: float = 0.0, tagcase_p: float = 0.0) -> list:
     """RDF 1.1 statements (s IRI|BNode, p IRI, o any non-quoted, g IRI|BNode|default) with
     literals rdflib does not normalise away... except the known "01" case which is kept."""
     out, prev = [], None
@@ -148,6 +152,9 @@ def rdf11_statements(r, g: genmod.Gen, n: int, arity: int, noncanon_p: float = 0
                 return t
 
     def obj():
+        if tagcase_p and r.random() < tagcase_p:
+            lex, tag = r.choice(TAGCASE)
+            return gs.Literal(lex, langtag=tag)
         if facet_p and r.random() < facet_p:
             lex, dt = r.choice(FACET)
             return gs.Literal(lex, datatype=dt)
@@ -185,7 +192,7 @@ def rdf11_statements(r, g: genmod.Gen, n: int, arity: int, noncanon_p: float = 0
 
 
 def ref_stream(ctx, rdf11: bool = False, phys: int | None = None, nd: bool | None = None, churn: bool | None = None,
-               edge: bool | None = None, noncanon_p: float = 0.15, facet_p: float = 0.0):
+               edge: bool | None = None, noncanon_p: float = 0.15, facet_p: float = 0.0, tagcase_p: float = 0.0):
     """One valid stream from the reference encoder -> dict(frames, events, bytes...) or None."""
     r = ctx.rng
     phys = phys or r.choice([1, 2, 3])
@@ -199,7 +206,7 @@ def ref_stream(ctx, rdf11: bool = False, phys: int | None = None, nd: bool | Non
         g = genmod.Gen(r, nprefix=r.randint(4, 7), nname=r.randint(2, 3), ndt=r.randint(1, 2))
     if rdf11:
         # BNODES with empty labels / empty IRIs are not RDF 1.1 material for rdflib
-        stmts = rdf11_statements(r, g, r.choice([6, 10, 15] if churn else [1, 2, 4, 8, 15]), ar, noncanon_p, facet_p)
+        stmts = rdf11_statements(r, g, r.choice([6, 10, 15] if churn else [1, 2, 4, 8, 15]), ar, noncanon_p, facet_p, tagcase_p)
     else:
         stmts = g.statements(r.choice([6, 10, 15] if churn else [1, 2, 4, 8, 15]), ar)
     need = genmod.table_need(stmts)
